@@ -12,14 +12,21 @@ versions / 8 masks (payload-independent stages) and symbolically where payload-d
                            square, and places exactly 8 * codewords + remainder bits (the `debug_assert`).
 * `C10_division_fits`    : every block + generator fits `division`'s buffer (C02_bounds).
 * `C10_terminator_safe`  : `data_bits - len` in `add_terminator` cannot wrap (C05_no_overflow_tables).
-Open (partial): trap-freedom of the byte-level `push_bits` (index bounds and the `u8 +=`) is carried
-by the refinement proof of C06; the composition into `(build inp o).traps = []` is not yet closed.
+* `C10_total`            : **for EVERY byte string and every legal option combination whose mode
+                           (forced, or automatic) can represent the input, the trap-instrumented model of
+                           `QRBuilder::build` records no trap**: encode (bit buffer indices, `u8 +=`,
+                           the terminator subtraction), `structure` (slices, `division`'s buffer, the
+                           5430-byte array), blank symbol, zig-zag placement and its `debug_assert`, all
+                           eight mask sweeps, scoring (`PERCENT_SCORE[percent]`, `u32` sums) and the format
+                           writer. `C10_total_auto`: in automatic mode no alphabet hypothesis is needed.
+Not modelled: stack/heap exhaustion, allocator aborts; termination is structural in the model.
 -/
 import FastQr.Proofs.TemplateSound
 import FastQr.Proofs.MaskSound
 import FastQr.Props.C02
 import FastQr.Props.C05
 import FastQr.Model.Build
+import FastQr.Proofs.Total
 
 namespace FastQr.Props.C10
 open FastQr Model Spec Finite Proofs
@@ -59,6 +66,16 @@ theorem C10_terminator_safe (m : Mode) (l : ECL) (len : Nat) (forced : Option Na
     4 + T.cciBits m v + Spec.payloadBits m len ≤ T.dataBits l v :=
   C05.C05_no_overflow_tables m l len forced v hforced h
 
-example : (build [49, 50, 51] {}).traps = [] := by native_decide
+/-- **C10 (totality)** -/
+theorem C10_total (inp : List Nat) (o : Opts) (hb : Spec.IsBytes inp) (ho : LegalOpts o)
+    (halpha : Spec.alphabetOK (o.mode.getD (bestEncoding inp)) inp = true) : (build inp o).traps = [] :=
+  Total.build_total inp o hb ho halpha
+
+/-- **C10 (totality, automatic mode)**: every byte string -/
+theorem C10_total_auto (inp : List Nat) (o : Opts) (hb : Spec.IsBytes inp) (ho : LegalOpts o)
+    (hauto : o.mode = none) : (build inp o).traps = [] :=
+  Total.build_total_auto inp o hb ho hauto
+
+example : (build [49, 50, 51] {}).traps = [] := C10_total_auto _ _ (by intro c hc; simp at hc; omega) ⟨by simp, by simp⟩ rfl
 
 end FastQr.Props.C10
